@@ -526,6 +526,7 @@ class CallMixin:
                     s2.assume(self.spec_eval(s2, rs["when"], fid, old_heap, entry, {}))
                 for item in SP._labelled(rs.get("ensures", []), "rpost"):
                     s2.assume(self.spec_eval(s2, item[1], fid, old_heap, entry, {"exc": ev_}))
+                self.run_after(s2, "after_raise", name, n, fid, old_heap, entry, {"exc": ev_})
                 if self.feasible(s2):
                     s2.trail.append("call:%s#%d:raises%d" % (name, n, ri))
                     outcomes.append(Res(s2, exc=ev_))
@@ -536,16 +537,30 @@ class CallMixin:
             result = self.sym(s, "ret_" + name.split(".")[-1], c.returns) if c.returns != "none" else SV("none")
             for label, src, props in c.ensures:
                 s.assume(self.spec_eval(s, src, fid, old_heap, entry, {"result": result}))
-            if self.cur is not None and s.depth == 0:
-                for gname, gsrc in self.cur.extra.get("after", {}).get("%s#%d" % (name, n), []):
-                    gv = self.spec_value(s, gsrc, fid, old_heap, entry, {"result": result})
-                    s.frames[self.root_fid][gname] = gv
+            self.run_after(s, "after", name, n, fid, old_heap, entry, {"result": result})
             if c.raises:
                 s.trail.append("call:%s#%d:ok" % (name, n))
             if not c.raises or self.feasible(s):
                 outcomes.append(Res(s, result))
             out.extend(outcomes)
         return out
+
+    def run_after(self, s, which, name, n, fid, old_heap, entry, res):
+        """ghost updates the verified function's contract attaches to a call site (witnesses / ghost accumulators);
+        the expressions see the callee's parameters and ghost outputs, then the caller's ghost variables"""
+        if self.cur is None or s.depth != 0:
+            return
+        items = self.cur.extra.get(which, {}).get("%s#%d" % (name, n), []) + self.cur.extra.get(which, {}).get(name + "#*", [])
+        if not items:
+            return
+        saved = s.frames[fid]["$parent"]
+        s.frames[fid]["$parent"] = self.root_fid
+        try:
+            for gname, gsrc in items:
+                gv = self.spec_value(s, gsrc, fid, old_heap, entry, res)
+                s.frames[self.root_fid][gname] = gv
+        finally:
+            s.frames[fid]["$parent"] = saved
 
     def emit(self, st, name, goal, kind, props=(), info=None):
         fnname = self.cur.key if self.cur else "?"
